@@ -68,6 +68,33 @@ pub fn eval_wait(sc: &Scenario) -> CaseResult {
     r
 }
 
+pub fn drop_at_threshold_case(i: u64, seed: u64) -> Scenario {
+    let r = crate::sim::types::mix(seed ^ 0xd207, i);
+    let mut sc = Scenario::basic(r, 3);
+    sc.max_pred = [2u8, 3, 4, 6, 8][(r % 5) as usize];
+    let d = ((r >> 4) % 2) as u8;
+    for p in sc.peers.iter_mut() {
+        p.delay = d;
+    }
+    sc.sched = 0;
+    sc.predictor = ((r >> 6) % 2) as u8;
+    sc.own_snapshots = (r >> 7) % 4 == 0;
+    let lat = 15 + ((r >> 8) % 56) as u16;
+    sc.link = crate::sim::net::LinkProfile { loss: 0, dup: 0, lat_min: lat, lat_max: lat };
+    sc.notify_ms = 20000;
+    sc.timeout_ms = 40000;
+    let t0 = 80 + ((r >> 16) % 60) as u32;
+    sc.ops.push(Op::Kill { tick: t0, peer: 2 });
+    // X's last packets arrive `lat` ms later; the survivors then run window-many frames further and wait
+    let wait_from = t0 + (lat as u32 + 15) / 16 + sc.max_pred as u32 + d as u32;
+    let t1 = wait_from + 1 + ((r >> 24) % 6) as u32;
+    sc.ops.push(Op::Disconnect { tick: t1, peer: 0, handle: 2 });
+    sc.ops.push(Op::Disconnect { tick: t1, peer: 1, handle: 2 });
+    sc.ticks = t1 + 120;
+    sc.settle = 60;
+    sc
+}
+
 pub fn run(ctx: &Ctx) -> PropReport {
     let mut rep = PropReport::new("C02", "exploration");
     let mut p = GenParams::default();
@@ -97,6 +124,13 @@ pub fn run(ctx: &Ctx) -> PropReport {
     rep.part(|| run_enum(ctx, "multi_drop",
         "C04's starved_after_drop scenarios (3 peers, windows {0,1,2,4,8,12}, sparse, delays, 1-2 local players: a peer dies and is timed out by both survivors with the same cut-off, later a survivor's link is cut for a while) and C10's equal-amount two-drop scenarios (4 peers): same request contract",
         ctx.tier.pick(2500u64, 12000u64), move |i| if i % 3 == 2 { super::c10::gossip_case(i / 3, seed) } else { super::c04::after_drop_case(i, seed) }, eval, false));
+    // ... and the exact sequence of seeded change C02-r9: X falls silent, A and B run into the prediction limit at frame c
+    // (Save(c) issued, call after call), both drop X through the API within a few ticks of each other - before the
+    // other's input for c (sent only once the sender can advance again) has arrived -, the drop-only rollback
+    // re-simulates up to c, and the first misprediction afterwards is often exactly at c: Load(c)
+    rep.part(|| run_enum(ctx, "drop_at_threshold",
+        "3 peers, windows {2,3,4,6,8}, delays 0-1, latency 15-70 ms between the survivors: X dies; 1-6 ticks after the survivors have reached the prediction limit both drop X with disconnect_player in the same tick (equal amounts of X's input: same latency from X) and play on together: same request contract - in particular the cell of the frame they waited at must hold the re-simulated state when a later rollback loads it; non-trivial = both dropped X and some rollback happened afterwards",
+        ctx.tier.pick(3000u64, 15000u64), move |i| drop_at_threshold_case(i, seed), eval, false));
     let mut pw = p.clone();
     pw.windows = vec![(1, 0)];
     rep.part(|| run_random(ctx, "lockstep_wait", "same oracle (plus: an Err result never moves current_frame()); lockstep sessions in which all or a seeded subset of the peers call advance_frame_with_wait / _with_wait_timeout(3 ms) / (0) in rotation under an auto-ticking clock, link latency 0-45 ms so that the missing input - or the input of the next frame - arrives while the helper is spinning; non-trivial = a packet was delivered during a wait call after its first poll", || lockstep_wait(&pw), ctx.tier.pick(2500, 10000), eval_wait));
